@@ -6,7 +6,7 @@ import MlModel.Model.PipeLib
   over one record with 3 rows yields a record whose assigned column has 2 rows while its own
   columns have 3; the third row's result is dropped.
 * (F-C08-index0 — `assign(Key.Index(0), ..)` rejected because `Index(0)` is falsy — is repaired
-  (`fix:` b1b1554); the model is the repaired builder, `C08_build_index0` in `Properties/C08.lean`.)
+  (`fix:` 59af50d); the model is the repaired builder, `C08_build_index0` in `Properties/C08.lean`.)
 * **F-C08-sink-threads**: with two workers each running its own `Sink.iterate` over the shared
   sink (`write*; close`), every schedule closes the sink twice and some schedule writes after a
   close.  (The threads themselves are not part of the `Pipe` model: this is the two-worker
